@@ -334,6 +334,7 @@ def run_csv(case, long_only=True):
                 random.Random(1009 * i + len(rr)).shuffle(rr)
             files[s] = rr
     spread = case.get('spread') or 0.0
+    late_quotes = False
     with market.csv_dir(files) as path:
         ds = q.CSVDailyBarDataSource(path, q.Equity, adjust_prices=case['adjust'], csv_symbols=list(syms))
         if spread:
@@ -344,14 +345,19 @@ def run_csv(case, long_only=True):
             # another vendor's files for the same symbols, listed first, whose history starts months later (other
             # prices): it has nothing to say at t, so the handler must fall through to the second source
             later = {}
+            shift = case.get('late_shift', 91)
             for s, rows in syms.items():
                 later[s] = []
                 for r in rows:
-                    d_ = D.date(r[0], r[1], r[2]) + D.timedelta(days=91)
+                    d_ = D.date(r[0], r[1], r[2]) + D.timedelta(days=shift)
                     later[s].append([d_.year, d_.month, d_.day] + [None if x is None else round(x * 1.5, 4) for x in r[3:]])
             market.write_market(later, path + '_later')
             sources = [q.CSVDailyBarDataSource(path + '_later', q.Equity, adjust_prices=case['adjust'],
                                                csv_symbols=list(syms)), ds]
+        if case.get('first_source_other_symbols'):
+            # a first-listed source that does not carry these symbols at all (it raises for them): the search goes on
+            market.write_market({'ZZZ': [r[:3] + [9.0, 9.0, 9.0] for r in next(iter(syms.values()))]}, path + '_zzz')
+            sources = [q.CSVDailyBarDataSource(path + '_zzz', q.Equity, adjust_prices=case['adjust'], csv_symbols=['ZZZ'])] + sources
         if case.get('second_source_also_quotes'):
             # a second vendor quoting the same symbols on the same days at other prices, listed after the first: the
             # first-listed source that can price an asset answers
@@ -373,9 +379,23 @@ def run_csv(case, long_only=True):
             sizer = q.LongShortLeveragedOrderSizer(b, 'p', dh, gross_leverage=case['arg'])
         weights = {'EQ:' + s: w for s, w in case['weights'].items()}
         price = {'EQ:' + s: lookup(observations(rows, case['adjust']), t)[0] * (1.0 + spread) for s, rows in syms.items()}
+        if case.get('late_source_first'):
+            # where the first-listed (later-starting) source already quotes at t, its price is the answer
+            for s in syms:
+                pl = lookup(observations(later[s], case['adjust']), t)[0]
+                if not math.isnan(pl):
+                    price['EQ:' + s] = pl
+                    late_quotes = True
+            # the handler has answered bid / mid queries a few days earlier (as a broker marking positions does)
+            for s in syms:
+                for back in (3, 1):
+                    dh.get_asset_latest_bid_price(t - pd.Timedelta(days=back), 'EQ:' + s)
+                    dh.get_asset_latest_mid_price(t - pd.Timedelta(days=back), 'EQ:' + s)
         unpriced = [a for a in weights if math.isnan(price[a])]
+        # the sizing instant may be written in another time zone (the same instant)
+        t_call = t.tz_convert(case['tz']) if case.get('tz') else t
         try:
-            out = sizer(t, dict(weights))
+            out = sizer(t_call, dict(weights))
         except ValueError:
             if unpriced:
                 return Result(['rejected_unpriced_asset'] + (['first_bar_has_no_open_and_asked_at_that_open']
@@ -386,6 +406,7 @@ def run_csv(case, long_only=True):
             import shutil
             shutil.rmtree(path + '_later', ignore_errors=True)
             shutil.rmtree(path + '_other', ignore_errors=True)
+            shutil.rmtree(path + '_zzz', ignore_errors=True)
     if unpriced:
         raise Violation('asset(s) %s have no bar at or before %s (first bars %s) yet the sizer returned %s' % (
             unpriced, t, {s: market.first_date(r) for s, r in syms.items()}, out))
@@ -429,8 +450,14 @@ def run_csv(case, long_only=True):
         cls.append('files_' + order)
     if case.get('late_source_first'):
         cls.append('first_listed_source_starts_later')
+        if late_quotes:
+            cls.append('later_starting_source_quotes_by_now')
     if case.get('second_source_also_quotes'):
         cls.append('second_source_also_quotes')
+    if case.get('first_source_other_symbols'):
+        cls.append('first_source_carries_other_symbols')
+    if case.get('tz'):
+        cls.append('sizing_instant_in_other_time_zone')
     if case.get('broker_days_back'):
         cls.append('broker_clock_behind_the_sizing_instant')
     return Result(cls, nontrivial=bool(spread) or order != 'sorted')
@@ -471,7 +498,10 @@ def csv_cases(draw, long_only=True):
     return {'file_order': draw(st.sampled_from(['sorted', 'reversed', 'shuffled'])),
             'spread': draw(st.sampled_from([0.0, 0.0, 0.02, 0.3])),
             'late_source_first': draw(st.sampled_from([False, False, True])),
+            'late_shift': draw(st.sampled_from([91, 4, 2])),
             'second_source_also_quotes': draw(st.sampled_from([False, False, True])),
+            'first_source_other_symbols': draw(st.sampled_from([False, False, True])),
+            'tz': draw(st.sampled_from([None, None, 'America/New_York', 'Asia/Tokyo'])),
             'broker_days_back': draw(st.sampled_from([0, 0, 1, 4, 9])),
             'blank_first_open': blank, 'where': where, 'symbols': syms, 't': t, 'weights': w, 'equity': draw(st.sampled_from([1e6, 1e4, 250000.0])),
             'fee': draw(st.sampled_from([None, [0.001, 0.005]])), 'adjust': draw(st.booleans()),
